@@ -1,1 +1,120 @@
-From Verif Require Import Common.Base C09.Model.
+(* C09/Witness.v — non-vacuity of the hypotheses of the theorems and concrete evaluations. *)
+From Verif Require Import Common.Base C09.Model C09.Spec C09.Proofs1 C09.Proofs2 C09.Proofs3 C09.Proofs4 C09.Proofs5.
+
+(* traces/0: receivers 0,1; processors 0,1; exporter 0 and connector 10
+   metrics/0: fed by connector 10; processor 2; exporters 0,1
+   traces/1: receiver 0 (shared with traces/0); no processors; exporter 0 (shared) and connector 10
+   connector 10 supports traces -> metrics only *)
+Definition ex1 : config := mkC
+  [ mkP (0,0) [0;1] [0;1] [0;10];
+    mkP (1,0) [10] [2] [0;1];
+    mkP (0,1) [0] [] [0;10] ]
+  [ (10, [(0,1)]) ].
+
+Lemma NoDup_by_dedup (l : list pid) : list_eqb pid_eqb (dedup pid_eqb l) l = true -> NoDup l.
+Proof.
+  intros H. apply (list_eqb_spec pid_eqb pid_eqb_spec) in H. rewrite <- H.
+  apply (NoDup_dedup pid_eqb pid_eqb_spec).
+Qed.
+
+(* hypotheses of route_exact / instances_exact / graph_cycle_iff_connector_cycle are satisfiable *)
+Example ex1_wf : wf_config ex1.
+Proof. apply NoDup_by_dedup. vm_compute. reflexivity. Qed.
+
+Example ex1_builds : exists g, build ex1 = Ok g /\ In (Recv 0 0) (g_nodes g) /\ validate ex1 = true.
+Proof. eexists. split; [vm_compute; reflexivity|]. vm_compute. tauto. Qed.
+
+(* ... and those of valid_config_builds *)
+Example ex1_valid : connectors_supported ex1 /\ ~ connector_cycle ex1.
+Proof.
+  split; [apply possible_errors_nil; vm_compute; reflexivity|].
+  intros H. apply (connector_cycle_not_acyclic ex1 H).
+  apply (cyclic_false_iff _ _ (edges_closed_of ex1)). vm_compute. reflexivity.
+Qed.
+
+(* shared receiver 0 reaches: exporter traces/0 twice (once per pipeline, different trails), and both
+   metrics exporters twice through the single traces->metrics instance of connector 10 *)
+Example ex1_deliver :
+  match build ex1 with
+  | Ok g => deliver g (Recv 0 0) =
+      [(Exp 0 0, [Proc (0, 0) 0; Proc (0, 0) 1]);
+       (Exp 1 0, [Proc (0, 0) 0; Proc (0, 0) 1; Conn 0 1 10; Proc (1, 0) 2]);
+       (Exp 1 1, [Proc (0, 0) 0; Proc (0, 0) 1; Conn 0 1 10; Proc (1, 0) 2]);
+       (Exp 0 0, []);
+       (Exp 1 0, [Conn 0 1 10; Proc (1, 0) 2]);
+       (Exp 1 1, [Conn 0 1 10; Proc (1, 0) 2])]
+      /\ created g = [Recv 0 1; Proc (0, 0) 0; Proc (0, 0) 1; Proc (1, 0) 2; Exp 1 0; Exp 1 1; Recv 0 0; Exp 0 0; Conn 0 1 10]
+  | Err _ => False
+  end.
+Proof. vm_compute. split; reflexivity. Qed.
+
+(* the router of the single instance of connector 10 offers metrics/p0 only *)
+Example ex1_router : match build ex1 with Ok g => router_pids g (Conn 0 1 10) = [(1, 0)] | Err _ => False end.
+Proof. vm_compute. reflexivity. Qed.
+
+Example ex1_cpath : cpath ex1 0 0 [Recv 0 0; Cap (0,1); Fan (0,1); Conn 0 1 10; Cap (1,0); Proc (1,0) 2; Fan (1,0); Exp 1 1].
+Proof.
+  exists (mkP (0,1) [0] [] [0;10]), [Cap (0,1); Fan (0,1); Conn 0 1 10; Cap (1,0); Proc (1,0) 2; Fan (1,0); Exp 1 1].
+  repeat split; try (simpl; tauto).
+  apply (pp_conn ex1 (mkP (0,1) [0] [] [0;10]) 10 (mkP (1,0) [10] [2] [0;1])
+           [Cap (1,0); Proc (1,0) 2; Fan (1,0); Exp 1 1]); try (simpl; tauto); try reflexivity.
+  apply (pp_exp ex1 (mkP (1,0) [10] [2] [0;1]) 1); simpl; tauto.
+Qed.
+
+(* why itineraries carry the capabilities / fan-out nodes: two pipelines without processors give the
+   same visible (exporter, trail) twice — "once per path" is a statement about multisets *)
+Definition ex2 : config := mkC [ mkP (0,0) [0] [] [0]; mkP (0,1) [0] [] [0] ] [].
+Example ex2_twice :
+  match build ex2 with
+  | Ok g => deliver g (Recv 0 0) = [(Exp 0 0, []); (Exp 0 0, [])] /\
+            deliver_walks g (Recv 0 0) = [[Recv 0 0; Cap (0, 0); Fan (0, 0); Exp 0 0]; [Recv 0 0; Cap (0, 1); Fan (0, 1); Exp 0 0]]
+  | Err _ => False
+  end.
+Proof. vm_compute. split; reflexivity. Qed.
+
+(* a connector cycle (the pipeline feeds itself through connector 10) *)
+Definition ex_cyc : config := mkC [ mkP (0,0) [0;10] [3] [0;10] ] [ (10, [(0,0)]) ].
+Example ex_cyc_rejected : build ex_cyc = Err ECycle /\ service_log ex_cyc = [] /\ validate ex_cyc = true.
+Proof. vm_compute. repeat split; reflexivity. Qed.
+Example ex_cyc_connector_cycle : connector_cycle ex_cyc.
+Proof.
+  exists (mkP (0,0) [0;10] [3] [0;10]), []. simpl. split; [|exact I].
+  split; [left; reflexivity|]. split; [left; reflexivity|]. exists 10.
+  split; [simpl; auto|]. split; [simpl; auto|]. vm_compute. reflexivity.
+Qed.
+Example ex_cyc_hyps : wf_config ex_cyc /\ procs_distinct ex_cyc.
+Proof.
+  split; [apply NoDup_by_dedup; vm_compute; reflexivity | apply validate_procs_distinct; vm_compute; reflexivity].
+Qed.
+Example ex_cyc_report : check_cycle_report ex_cyc [Conn 0 0 10; Proc (0,0) 3; Conn 0 0 10] = true.
+Proof. vm_compute. reflexivity. Qed.
+Example ex_cyc_report_wrong : check_cycle_report ex_cyc [Conn 0 0 10; Proc (0,0) 4; Conn 0 0 10] = false.
+Proof. vm_compute. reflexivity. Qed.
+
+(* an unsupported use: connector 10 (traces->metrics only) between two traces pipelines *)
+Definition ex_uns : config := mkC [ mkP (0,0) [0] [] [10]; mkP (0,1) [10] [] [0] ] [ (10, [(0,1)]) ].
+Example ex_uns_rejected : build ex_uns = Err EUnsupported /\ possible_errors ex_uns = [ErrExp 10 0] /\ service_log ex_uns = [].
+Proof. vm_compute. repeat split; reflexivity. Qed.
+Example ex_uns_not_supported : ~ connectors_supported ex_uns.
+Proof.
+  intros H. destruct (H 10 (mkP (0,0) [0] [] [10]) eq_refl (or_introl eq_refl)) as [H1 _].
+  destruct (H1 (or_introl eq_refl)) as [Q [HQ [Hk S]]].
+  destruct HQ as [<-|[<-|[]]]; simpl in Hk; [destruct Hk as [Hk|[]]; discriminate|]. vm_compute in S. discriminate.
+Qed.
+
+(* a duplicated processor: Validate rejects, Build would panic *)
+Definition ex_dup : config := mkC [ mkP (2,0) [0] [1;1] [0] ] [].
+Example ex_dup_rejected : validate ex_dup = false /\ build ex_dup = Err EPanic /\ service_log ex_dup = [].
+Proof. vm_compute. repeat split; reflexivity. Qed.
+
+(* a connector fanning out to two signals is instantiated once per (source, destination) pair *)
+Definition ex_pairs : config := mkC
+  [ mkP (0,0) [0] [] [10]; mkP (0,1) [1] [] [10]; mkP (1,0) [10] [] [0]; mkP (2,0) [10] [] [0]; mkP (1,1) [10] [] [1] ]
+  [ (10, [(0,1); (0,2)]) ].
+Example ex_pairs_instances :
+  match build ex_pairs with
+  | Ok g => filter (fun n => match n with Conn _ _ _ => true | _ => false end) (created g) = [Conn 0 2 10; Conn 0 1 10]
+            /\ length (deliver g (Recv 0 0)) = 3
+  | Err _ => False
+  end.
+Proof. vm_compute. split; reflexivity. Qed.
